@@ -185,8 +185,8 @@ def grid_histories(ctx):
     for i in range(n):
         r = ctx.rng("hist", i)
         seed = r.getrandbits(30)
-        S = r.choice([4, 5, 6, 7])
-        k, N = r.choice([(2, 4), (1, 3), (3, 5), (2, 5)])
+        k, N = r.choice([(2, 4), (1, 3), (3, 5), (2, 5), (3, 6)])
+        S = r.choice([2 * k, 2 * k, max(2, 2 * k - 1), 2 * k + 1, 7])
         fmt = r.choice(["sdmf", "mdmf"])
         steps = []
         with G.Grid(num_clients=1, num_servers=S, k=k, n=N, happy=1, seed=seed, timeout=180) as g:
@@ -264,7 +264,15 @@ def grid_histories(ctx):
                 ctx.case((seed, step) if nontrivial else None, kind="grid-read")
                 if ambiguous:
                     continue
-                if recov:
+                # MODE_READ asks k + epsilon (= 2k) servers before it may stop; only when that covers the
+                # whole grid is "the versions it located" guaranteed to be "the versions reachable".
+                full_view = S <= 2 * k
+                if recov and not full_view:
+                    if out.status == "ok" and out.value not in contents.values():
+                        ctx.oracle_fail("read-returned-unpublished-bytes", "read returned bytes that were never published", case=case, observed=out.value)
+                    else:
+                        ctx.trace(1)
+                elif recov:
                     top = recov[-1][0]
                     if [v for v in recov if v[0] == top] != [recov[-1]]:
                         continue    # two recoverable versions with the same seqnum: order is by root hash, contents not tracked
